@@ -22,7 +22,7 @@ func c19Reviewed() {
 	reviewed(nf, `strconv.FormatFloat(phi($0|-$0),phi(101|102),-1,64)[ι:]`, "i <= len(es6Formatted)", `(12 <= len(strconv.FormatFloat(phi($0|-$0),phi(101|102),-1,64)))=true`)
 	// ParseDID
 	pd := "(*versions/1_0/operationparser.Parser).ParseDID"
-	reviewed(pd, `$2[0:strings.LastIndex($2,":")]`, "this branch is taken only when the DID with the namespace prefix removed still contains ':' — removal cannot introduce one, so the DID contains ':' and LastIndex >= 0", `contains(strings.ReplaceAll($2,($1 + ":"),""),":")=true`)
+	reviewed(pd, `$2[:strings.LastIndex($2,":")]`, "this branch is taken only when the DID with the namespace prefix removed still contains ':' — removal cannot introduce one, so the DID contains ':' and LastIndex >= 0", `contains(strings.ReplaceAll($2,($1 + ":"),""),":")=true`)
 	// sortedKeys
 	reviewed("patch.sortedKeys", "makeslice<[]string>[ι]", "keys has len(m) elements and i counts the iterations of `range m`, of which there are exactly len(m)", `next(range($0))#0=true`)
 	// applier: SuffixData of a parsed create operation
